@@ -761,6 +761,15 @@ func (im *inertModel) noChangeAfterFailedStatus(fn *ssa.Function, muts []inertPo
 			if !im.treatedAsFailure(fn, v, d) {
 				continue
 			}
+			// the callee may only ever return some of the values of the enumeration
+			if d.kind == "enum" {
+				if mask, ok := possibleStatusConsts(g, i, 0); ok && mask != 0 {
+					d.all &= mask
+					if d.all&d.failing == 0 {
+						continue
+					}
+				}
+			}
 			// forward data flow of the possible values
 			state := map[*ssa.BasicBlock]uint32{}
 			start := call.Block()
@@ -888,4 +897,50 @@ func (im *inertModel) returnsFailing(g *ssa.Function, idx int) bool {
 		}
 	}
 	return false
+}
+
+// possibleStatusConsts: the set of constants function g can return in result position idx (following statuses handed on
+// from static callees); ok=false if some return value is not a constant.
+func possibleStatusConsts(g *ssa.Function, idx int, depth int) (uint32, bool) {
+	if depth > 3 || len(g.Blocks) == 0 {
+		return 0, false
+	}
+	var mask uint32
+	for _, b := range g.Blocks {
+		ret, ok := b.Instrs[len(b.Instrs)-1].(*ssa.Return)
+		if !ok || idx >= len(ret.Results) {
+			continue
+		}
+		for _, leaf := range phiLeaves(ret.Results[idx], map[ssa.Value]bool{}) {
+			switch x := leaf.(type) {
+			case *ssa.Const:
+				if x.Value == nil || x.Int64() < 0 || x.Int64() > 30 {
+					return 0, false
+				}
+				mask |= 1 << uint32(x.Int64())
+			case *ssa.Extract:
+				call, ok := x.Tuple.(*ssa.Call)
+				if !ok || call.Call.StaticCallee() == nil {
+					return 0, false
+				}
+				m2, ok := possibleStatusConsts(call.Call.StaticCallee(), x.Index, depth+1)
+				if !ok {
+					return 0, false
+				}
+				mask |= m2
+			case *ssa.Call:
+				if x.Call.StaticCallee() == nil {
+					return 0, false
+				}
+				m2, ok := possibleStatusConsts(x.Call.StaticCallee(), 0, depth+1)
+				if !ok {
+					return 0, false
+				}
+				mask |= m2
+			default:
+				return 0, false
+			}
+		}
+	}
+	return mask, true
 }
